@@ -209,6 +209,15 @@ def run(chk):
         src = rng.choice(chips)
         dests = [rng.choice(chips) for _ in range(rng.choice((1, 2, 4, 9)))]
         traces.append(ner_trace(w, h, wrap, src, dests, rng.choice((0, 1, 2, 20)), chk.seed * 100000 + i))
+    # broadcast-sized nets: the tree already holds more chips than a neighbourhood search of small radius looks at,
+    # so the search scans the tree instead (a different code path), on tori where the nearest tree chip is across a seam
+    for i in range(chk.pick(80, 2000)):
+        w, h = rng.choice(((6, 6), (8, 8), (9, 9), (7, 10), (12, 5), (10, 10), (3, 14), (16, 4)))
+        wrap = rng.random() < 0.8
+        chips = [(x, y) for x in range(w) for y in range(h)]
+        src = rng.choice(chips)
+        dests = rng.sample(chips, max(1, int(len(chips) * rng.choice((0.3, 0.5, 0.8, 1.0)))))
+        traces.append(ner_trace(w, h, wrap, src, dests, rng.choice((1, 1, 2, 3)), chk.seed * 100000 + 50000 + i))
     # random machines with faults, several nets per call
     for i in range(chk.pick(900, 30000)):
         m = gen.random_machine(rng, maxw=chk.pick(8, 16), maxh=chk.pick(8, 16), p_dead_chip=rng.choice((0, 0.05, 0.15)))
@@ -233,7 +242,7 @@ def run(chk):
                       nontrivial=bool(t["deadlinks"] or t["dead"]))
     chk.count("trees judged", ntree)
     chk.rule = ("small scope: %d calls on machines up to 3x3 / 1x5 / 2x5 (torus and mesh) with every set of <= %d dead "
-                "directed links drawn from %s machines, random source, 1-3 sinks, radius 0/1/20; ner_net alone on "
+                "directed links drawn from %s machines, random source, 1-3 sinks, radius 0/1/20; ner_net alone (incl. broadcast-sized nets on tori, radius 1-3) on "
                 "fault-free tori/meshes incl. 1xN, 2xN; random machines up to %dx%d with dead chips and 0-40%% dead links "
                 "(one- and two-directional), 1-4 nets per call with repeated sinks, sinks on the source chip, zero-core "
                 "and endpoint vertices; non-trivial = machine has a fault; distinct = distinct (machine, radius, "
